@@ -7,5 +7,8 @@ export GOFLAGS=-mod=mod GOPROXY=off
 unset GOTOOLCHAIN
 mkdir -p .work/bin evidence replays lean/CqlVerif/Gen lean/CqlVerif/Audit
 (cd harness && CGO_ENABLED=0 go build -tags verif -o ../.work/bin/vh ./cmd/vh)
-if [ -x ./gen.sh ]; then ./gen.sh; fi
+# the regenerated Lean parts (never committed): every translator once, from /repo's working tree
+for g in config policy slot lexer panics locks tls; do
+  ./.work/bin/vh extract $g -out lean/CqlVerif/Gen
+done
 (cd lean && lake build driver CqlVerif)
